@@ -385,3 +385,23 @@ def plain_forward(e, depth=0):
     if e[0] == "deref": return plain_forward(e[1], depth + 1)
     if e[0] == "call" and e[1].split("::")[-1] in ("clone", "deref", "borrow", "as_ref") and len(e[2]) == 1: return plain_forward(e[2][0], depth + 1)
     return False
+
+
+def element_stores(body, dag):
+    """stores into an element of an indexed container: list of (block, container expr, index expr, stored rvalue).  Sees `buf[i] = v` (normalised into the
+    call form by normalize.py), `*buf.get_unchecked_mut(i) = v` and `buf.index_mut(i)`; the legacy place-projection form is kept for un-normalised facts."""
+    out = []
+    for b in sorted(body.reachable):
+        for st in body.stmts(b):
+            if st[0] != "A" or not st[1]["p"]: continue
+            p = st[1]
+            if any(e != "*" and e[0] == "i" for e in p["p"]):
+                il = [e[1] for e in p["p"] if e != "*" and e[0] == "i"][0]
+                out.append((b, dag.place({"l": p["l"], "p": []}), D.strip_casts(dag.local(il)), st[2])); continue
+            if p["p"][0] != "*" or len(p["p"]) != 1: continue
+            d = body.single_def(p["l"])
+            if d is None or d[2][0] != "CallRes": continue
+            c = d[2][1]
+            if c.get("fname") in ("get_unchecked_mut", "index_mut", "get_mut") and len(c["args"]) >= 2:
+                out.append((b, dag.expr(c["args"][0]), D.strip_casts(dag.expr(c["args"][1])), st[2]))
+    return out
